@@ -36,12 +36,12 @@ def all_designs(nmod, maxkids):
 
 def with_flavours(kidlists, salt):
     """Attach a flavour to every module: bit0 array for the first child, bit1 rotated bundle-connection styles,
-    bit2 wide array data, bit3 NoConn on the bq/q ports of an only child.  Deterministic in (design, salt)."""
+    bit2 wide array data, bit3 NoConn on the bq/q ports of an only child, bit4 no primitive instances.  Deterministic in (design, salt)."""
     out = []
     for i, ks in enumerate(kidlists):
-        f = (salt * 5 + i * 3 + len(ks)) % 16
+        f = (salt * 5 + i * 3 + len(ks)) % 32
         if not ks:
-            f &= 2
+            f &= 18
         out.append([ks, f])
     return out
 
@@ -198,10 +198,10 @@ def c_op(op):
     raise ValueError(k)
 
 
-def c_obs(rec, same):
+def c_obs(rec, same, logged=True):
     acc = bool(rec.get("ok")) and rec.get("same", True)
     log = clist(rec.get("frames", []), lambda e: f"({e[0]},{e[1]},{cbool(e[2])})")
-    return f"IObs {cbool(acc)} {log} {same}"
+    return f"IObs {cbool(acc)} {cbool(logged)} {log} {same}"
 
 
 def model_kids(spec):
@@ -222,10 +222,10 @@ def c_case(job, out, refs):
             op = ["NP", [model_kids(op[1]), op[1][1]]]
         elif op[0] in ("P", "N"):
             same = 1 if rec.get("ok") and rec["hash"] == refs.get(d[:n], op[0], list(op[1])) else 0
-        steps.append(f"({c_op(op)}, {c_obs(rec, same)})")
+        steps.append(f"({c_op(op)}, {c_obs(rec, same, job['log'])})")
     for m, rec in zip(job["final"], out["final"]):
         same = 1 if rec.get("ok") and rec["hash"] == refs.get(d, "P1", m) else 0
-        steps.append(f"({c_op(['P1', m])}, {c_obs(rec, same)})")
+        steps.append(f"({c_op(['P1', m])}, {c_obs(rec, same, job['log'])})")
     kl = clist([c_nats(model_kids(x)) for x in job["design"]])
     return f"({kl}, {clist(steps)})%nat"
 
@@ -346,6 +346,8 @@ def corpus():
         # an only child with unconnected (NoConn) bundle and scalar ports, child elaborated first / new parent afterwards
         mk_job([[[], 0], [[0], 8], [[1], 9]], [["E1", 0], ["P", [2]], ["NP", [[1], 8]], ["N", [3]]]),
         mk_job([[[], 2], [[0], 12]], [["N", [0]], ["E1", 1], ["NP", [[0], 9]], ["P", [2, 1]]]),
+        # modules without any instance of their own (true leaves), add() after elaboration
+        mk_job([[[], 16], [[0, 0], 17], [[], 18]], [["P", [1]], ["ADD", 0], ["ADD", 1], ["E1", 2], ["ADD", 2], ["NP", [[2, 0], 16]], ["N", [3]], ["ADD", 3]]),
     ]
     return jobs
 
@@ -369,7 +371,7 @@ def gen_random(r, nmod, maxkids, p_np=0.4):
         k = r.randint(0, maxkids) if i < nmod - 1 else r.randint(1, maxkids)
         # mostly connected designs: prefer recent modules as children
         kl.append([r.choice(range(max(0, i - 2), i)) if r.random() < 0.7 else r.randrange(i) for _ in range(k)])
-    design = [[ks, (r.randrange(16) if ks else r.choice([0, 2]))] for ks in kl]
+    design = [[ks, (r.randrange(32) if ks else r.choice([0, 2, 16, 18]))] for ks in kl]
     ops = []
     n = nmod
     elaborated = set()
@@ -378,7 +380,7 @@ def gen_random(r, nmod, maxkids, p_np=0.4):
         u = r.random()
         if u < p_np * 0.5 and n < nmod + 2:
             k = r.randint(1, maxkids)
-            spec = [[r.randrange(n) for _ in range(k)], r.randrange(16)]
+            spec = [[r.randrange(n) for _ in range(k)], r.randrange(32)]
             ops.append(["NP", spec])
             full.append(spec)
             n += 1
@@ -472,6 +474,10 @@ def run(run, tier, seed, replay=None):
     jobs = exhaustive(3, 2, 41 if quick else 11, offset=seed + 1)
     do("exhaustive-small-3-new-interpreter", jobs, "direct", exhaustive=False,
        box="every 41st (quick) / 11th (thorough) case of the 3-module box, each in a new python process")
+    # ... and histories under the DEFAULT elaborator (no logging subclasses): outputs and add() only
+    jobs = [dict(j, log=False) for j in exhaustive(3, 2, 37 if quick else 5, offset=seed + 2)] + [dict(j, log=False) for j in corpus()]
+    do("default-elaborator", jobs, "fork", exhaustive=False,
+       box="every 37th (quick) / 5th (thorough) case of the 3-module box and the corpus, under the default elaborator (no visit log)")
 
     # ---------------------------------------------------------------- structured random
     n_rand = 150 if quick else 1500
